@@ -59,6 +59,10 @@ func BuildUnit(P *Program, key string, profile string, prop string) (*Unit, erro
 			st.ghost["n:"+k] = c
 		}
 	}
+	for _, gs := range fc.GhostSets {
+		e.famSort["ghost:gs:"+gs] = "(Array String Bool)"
+		st.ghost["gs:"+gs] = "((as const (Array String Bool)) false)"
+	}
 	e.entryState = st.clone()
 	x := e.newFx(fn, 0)
 	x.top = true
